@@ -60,7 +60,14 @@ def slice_bounds(sub, env):
 def concat_segments(node):
     """np.concatenate((A, B, C)) -> [A, B, C] nodes"""
     if isinstance(node, ast.Call) and call_name(node) == 'concatenate' and node.args and isinstance(node.args[0], (ast.Tuple, ast.List)):
-        return list(node.args[0].elts)
+        out = []
+        for e in node.args[0].elts:
+            # a nested concatenation is its segments in place: concatenate((concatenate((A, B)), C)) == concatenate((A, B, C))
+            if isinstance(e, ast.Call) and call_name(e) == 'concatenate' and e.args and isinstance(e.args[0], (ast.Tuple, ast.List)) and not e.keywords:
+                out.extend(concat_segments(e))
+            else:
+                out.append(e)
+        return out
     raise Unrecognised('not a concatenate((...)) call: %s' % unparse(node))
 
 
